@@ -23,7 +23,7 @@ from ndn.app_support.light_versec import compile_lvs, Checker, lvs_validator, DE
 from ndn.security import Sha256WithEcdsaSigner, Sha256WithRsaSigner, DigestSha256Signer, HmacSha256Signer
 
 from mc.core import Acc
-from mc.vloop import VLoop, tb_where
+from mc.vloop import VLoop, tb_where, HorizonExceeded
 from mc.ndnenv import HFace, FRONTENDS, owned_env
 from mc.seams import owned_random, key_der, pub_der
 from mc.ref import tlv_strict as ts
@@ -637,12 +637,108 @@ def iso_sequences(tier):
         yield from itertools.product(items, repeat=n)
 
 
+# -- certificate loops that the schema does not exclude --------------------------------------------------
+SCHEMA_LOOPY = r'''
+#KEY: "KEY"/_/_/_
+#root: "lab"/#KEY
+#p1: "lab"/"a"/_/#KEY <= #q1
+#q1: "lab"/_/"b2"/#KEY <= #root
+#p2: "lab"/"b"/_/#KEY <= #q2
+#q2: "lab"/_/"a2"/#KEY <= #root
+#p3: "lab"/"c"/_/#KEY <= #q1 | #q2
+#data: "lab"/"data"/_ <= #p1
+'''
+LOOP_KINDS = ('intact', 'intact-two-at-once', 'two-cycle', 'three-cycle', 'names-itself', 'cycle-behind-intact-prefix')
+
+
+def loopy_world(kind):
+    """names match several schema nodes (acyclic on the node level): /lab/a/a2/KEY/.. is a #p1 and a #q2, /lab/b/b2/KEY/.. a #p2 and a #q1,
+    /lab/a/b2/KEY/.. a #p1 and a #q1 - so certificates may legally name each other in a circle, which never reaches the anchor"""
+    start = dt.datetime(2024, 1, 1)
+    keyn = {'A': ('/lab/a/a2/KEY/%01', 'ec256_1'), 'B': ('/lab/b/b2/KEY/%01', 'ec256_2'), 'C': ('/lab/a/b2/KEY/%01', 'ec256_3'),
+            'D': ('/lab/c/a2/KEY/%01', 'ec256_4')}
+    # who signs whose certificate ('R' = the anchor)
+    plan_ = {'intact': {'A': 'C', 'C': 'R'}, 'intact-two-at-once': {'A': 'C', 'C': 'R'},
+             'two-cycle': {'A': 'B', 'B': 'A'}, 'three-cycle': {'A': 'B', 'B': 'D', 'D': 'A'}, 'names-itself': {'A': 'C', 'C': 'C'},
+             'cycle-behind-intact-prefix': {'A': 'C', 'C': 'B', 'B': 'A'}}[kind]
+
+    def build(locators):
+        out = {}
+        with owned_env(clock=Clock(), seed=14):
+            with owned_random(('c14-loopy', kind)):
+                akn = enc.Name.from_str('/lab/KEY/%01')
+                aname, anchor = sv2.self_sign(akn, pub_der('ec256_0'), signer_for('ec256_0', akn))
+                out['R'] = (aname, bytes(anchor))
+                for who in sorted(plan_):
+                    by = plan_[who]
+                    bykey = 'ec256_0' if by == 'R' else keyn[by][1]
+                    loc = aname if by == 'R' else locators.get(by, '/x')
+                    nm, cert = sv2.derive_cert(enc.Name.from_str(keyn[who][0]), 'iss', pub_der(keyn[who][1]), signer_for(bykey, loc), start, 86400)
+                    out[who] = (nm, bytes(cert))
+                pk = [bytes(enc.make_data(f'/lab/data/{i}', enc.MetaInfo(freshness_period=1000), b'x', signer_for(keyn['A'][1], out['A'][0])))
+                      for i in (1, 2)]
+        return out, pk
+    first, _ = build({})
+    certs, pk = build({k: v[0] for k, v in first.items()})
+    assert all(certs[k][0] == first[k][0] for k in first)
+    return certs, pk
+
+
+def run_loops(kind):
+    viol = []
+    install_lark_cache()
+    certs, pk = loopy_world(kind)
+
+    class H:
+        store = {bytes(enc.Name.to_bytes(nm)): w for k, (nm, w) in certs.items() if k != 'R'}
+        nack = set()
+    net = Net()
+    try:
+        net.serve(H)
+        val = lvs_validator(Checker(compile_lvs(SCHEMA_LOOPY), DEFAULT_USER_FNS), net.app, certs['R'][1])
+        want = kind.startswith('intact')
+        if kind == 'intact-two-at-once':
+            out = {}
+
+            async def one(i):
+                try:
+                    name, _, _, sig = enc.parse_data(pk[i])
+                    out[i] = await val(name, sig)
+                except BaseException as e:  # noqa
+                    out[i] = f'raises:{type(e).__name__}@{tb_where(e)}'
+            ts_ = [net.loop.create_task(one(0)), net.loop.create_task(one(1))]
+            net.loop.settle()
+            results = [(out.get(i), ts_[i].done()) for i in (0, 1)]
+            reqs = list(net.requests)
+        else:
+            res = net.validate(val, pk[0])
+            results = [(res.get('v'), res['done'])]
+            reqs = res['requests']
+        for got, done in results:
+            if not done:
+                viol.append((f'C14|loops|{kind}|never-finishes', 'validation did not finish'))
+            elif got is not True and got is not False:
+                viol.append((f'C14|loops|{kind}|{got}', f'validator ended with {got} after {len(reqs)} certificate Interests'))
+            elif got != want:
+                viol.append((f"C14|loops|{kind}|{'accepted-invalid' if got else 'rejected-valid'}", f'verdict {got}, expected {want}'))
+        if len(reqs) > 2 * len(certs):
+            viol.append((f'C14|loops|{kind}|fetches-round-and-round', f'{len(reqs)} certificate Interests for {len(certs) - 1} certificates'))
+        for f in net.loop.task_failures():
+            viol.append((f"C14|loops|{kind}|task-error|{f['exception']}@{f['where']}", f'{f}'))
+    except HorizonExceeded:
+        viol.append((f'C14|loops|{kind}|never-finishes', 'the validation keeps the loop busy beyond the horizon'))
+    finally:
+        net.close()
+    return viol
+
+
 def plan(tier, seed):
     cases = list(chain_cases(tier))
     units = [{'kind': 'chain', 'lo': lo, 'hi': min(len(cases), lo + 8), 'tier': tier} for lo in range(0, len(cases), 8)]
     units.append({'kind': 'constructor'})
     units.append({'kind': 'binding'})
     units.append({'kind': 'storage'})
+    units += [{'kind': 'loops', 'what': k} for k in LOOP_KINDS]
     seqs = list(iso_sequences(tier))
     units += [{'kind': 'isolation', 'lo': lo, 'hi': min(len(seqs), lo + 12), 'tier': tier} for lo in range(0, len(seqs), 12)]
     return {
@@ -674,6 +770,17 @@ def unit(arg):
             for sig, what in viol:
                 acc.violation(sig, what, {'kind': 'chain', 'case': case})
             acc.sample({'chain_case': case, 'verdict': key})
+    elif arg['kind'] == 'loops':
+        viol = run_loops(arg['what'])
+        acc.evaluations += 1
+        acc.transitions += 4
+        acc.nontrivial += 1
+        acc.state(arg['what'])
+        acc.outcome(f"loops|{arg['what']}|{'ok' if not viol else 'viol'}")
+        acc.observe([arg['what'], [v[0] for v in viol]])
+        for sig, what in viol:
+            acc.violation(sig, what, {'kind': 'loops', 'what': arg['what']})
+        acc.sample({'loop_case': arg['what'], 'schema': SCHEMA_LOOPY})
     elif arg['kind'] == 'storage':
         for depth in (1, 2, 3, 4):
             viol = run_storage(depth)
@@ -732,6 +839,8 @@ def replay(case):
         v, _ = run_chain(case['case'])
     elif case['kind'] == 'storage':
         v = run_storage(case['depth'])
+    elif case['kind'] == 'loops':
+        v = run_loops(case['what'])
     elif case['kind'] == 'binding':
         v, _ = run_binding(case['idx'], case['order'])
     elif case['kind'] == 'constructor':
